@@ -51,19 +51,19 @@ type deferred struct {
 }
 
 type State struct {
-	regs    map[ssa.Value]Val
-	cells   map[interface{}]Val
-	heap    map[string]Term // current version of each heap map / ghost variable
-	origin  map[ssa.Value]*Addr
-	pc      []string
-	defers  map[*Frame][]deferred
-	inLoop  map[*ssa.BasicBlock]bool
-	variant map[*ssa.BasicBlock][]Term
-	trace   []string
+	regs     map[ssa.Value]Val
+	cells    map[interface{}]Val
+	heap     map[string]Term // current version of each heap map / ghost variable
+	origin   map[ssa.Value]*Addr
+	pc       []string
+	defers   map[*Frame][]deferred
+	inLoop   map[*ssa.BasicBlock]bool
+	variant  map[*ssa.BasicBlock][]Term
+	trace    []string
 	volatile map[interface{}]bool
-	fresh   map[string]bool // sequence terms known to be freshly allocated (no alias)
-	nDecl   int
-	epoch   int
+	fresh    map[string]bool // sequence terms known to be freshly allocated (no alias)
+	nDecl    int
+	epoch    int
 }
 
 func newState() *State {
@@ -240,6 +240,8 @@ func seqSort(elem types.Type) (Sort, bool) {
 		return SSeqI, true
 	case SBytes:
 		return SSeqB, true
+	case SSeqB:
+		return SSeqC, true
 	}
 	return SNone, false
 }
